@@ -33,14 +33,19 @@ import (
 	"verif/internal/wz"
 )
 
+type ctxKey struct{}
+
+var errCustomCause = errors.New("custom cancellation cause")
+
 func TestMain(m *testing.M) { evid.Main(m, "C07") }
 
 // Case is one replayable experiment.
 type Case struct {
 	Engine  string `json:"engine"`
 	Shape   Shape  `json:"shape"`
-	Cause   string `json:"cause"`    // "cancel" | "timeout" | "done-cancel" | "done-deadline" | "close" | "close-code" | "none" (control)
-	DelayUs int    `json:"delay_us"` // delay between the heartbeat and the trigger (timeout: the timeout itself)
+	Flavor  string `json:"ctx_flavor,omitempty"` // "" | "cause" (WithCancelCause / WithDeadlineCause with a custom cause) | "child" (a value context derived from the cancellable one)
+	Cause   string `json:"cause"`                // "cancel" | "timeout" | "done-cancel" | "done-deadline" | "close" | "close-code" | "none" (control)
+	DelayUs int    `json:"delay_us"`             // delay between the heartbeat and the trigger (timeout: the timeout itself)
 	Code    uint32 `json:"code,omitempty"`
 	Procs   int    `json:"procs"`             // GOMAXPROCS during the case
 	CtlCtx  string `json:"ctl_ctx,omitempty"` // control group: "background" | "cancel" | "timeout"
@@ -160,6 +165,9 @@ func runCase(c *Case) (res Result) {
 	delay := time.Duration(c.DelayUs) * time.Microsecond
 	var deadline time.Time
 	switch {
+	case c.Cause == "cancel" && c.Flavor == "cause":
+		cctx, cc := context.WithCancelCause(bg)
+		ctx, cancel = cctx, func() { cc(errCustomCause) }
 	case c.Cause == "cancel" || c.Cause == "done-cancel" || (control && c.CtlCtx == "cancel"):
 		ctx, cancel = context.WithCancel(bg)
 	case c.Cause == "done-deadline":
@@ -228,8 +236,15 @@ func runCase(c *Case) (res Result) {
 	if c.Cause == "timeout" {
 		deadline = time.Now().Add(delay)
 		var cancelT context.CancelFunc
-		ctx, cancelT = context.WithDeadline(bg, deadline)
+		if c.Flavor == "cause" {
+			ctx, cancelT = context.WithDeadlineCause(bg, deadline, errCustomCause)
+		} else {
+			ctx, cancelT = context.WithDeadline(bg, deadline)
+		}
 		defer cancelT()
+	}
+	if c.Flavor == "child" {
+		ctx = context.WithValue(ctx, ctxKey{}, 1)
 	}
 
 	var results []uint64
@@ -421,6 +436,9 @@ func genCase(t *rapid.T) *Case {
 		causes = []string{"cancel", "cancel", "timeout", "timeout", "done-cancel", "done-deadline"} // no module handle to close
 	}
 	c.Cause = rapid.SampledFrom(causes).Draw(t, "cause")
+	if c.Cause == "cancel" || c.Cause == "timeout" {
+		c.Flavor = rapid.SampledFrom([]string{"", "", "cause", "child"}).Draw(t, "flavor")
+	}
 	c.DelayUs = rapid.SampledFrom(delaysUs).Draw(t, "delay")
 	if c.Cause == "close-code" {
 		c.Code = rapid.SampledFrom([]uint32{0, 1, 2, 255, 0x7fffffff, 0xfffffffe}).Draw(t, "code")
@@ -438,7 +456,7 @@ func caseKey(c *Case) uint64 {
 
 func labelsOf(c *Case, r Result) []string {
 	s := &c.Shape
-	l := []string{"engine:" + c.Engine, "cause:" + c.Cause, "entry:" + s.Entry, fmt.Sprintf("gomaxprocs:%d", c.Procs), "outcome:" + r.Outcome}
+	l := []string{"engine:" + c.Engine, "cause:" + c.Cause, "ctx-flavor:" + c.Flavor, "entry:" + s.Entry, fmt.Sprintf("gomaxprocs:%d", c.Procs), "outcome:" + r.Outcome}
 	if c.Cause != "none" {
 		l = append(l, fmt.Sprintf("delay_us:%d", c.DelayUs), "class:"+s.class())
 	}
